@@ -21,7 +21,21 @@
 #include <unistd.h>
 #include <fcntl.h>
 #include "lib/lha_decoder.h"
+#include <sys/time.h>
+#include <signal.h>
 #include "verif_hooks.h"
+
+/* per-case CPU-time watchdog: a case that burns more than VERIF_CASE_CPU_S seconds of CPU is reported as a hang
+ * (exit 3 + "WATCHDOG" on stderr); the driver attributes it to the marked case and restarts after it. */
+static void case_watchdog(int sig) { static const char m[] = "\nWATCHDOG case exceeded its CPU budget\n"; (void) sig; if (write(2, m, sizeof m - 1) < 0) { } _exit(3); }
+static void arm_watchdog(void)
+{
+	struct itimerval it; const char *e = getenv("VERIF_CASE_CPU_S"); long s = e ? atol(e) : 30;
+	memset(&it, 0, sizeof it); it.it_value.tv_sec = s > 0 ? s : 30;
+	signal(SIGPROF, case_watchdog);
+	setitimer(ITIMER_PROF, &it, NULL);
+}
+
 
 typedef struct { const uint8_t *p; size_t len, pos; uint32_t chunk; unsigned long calls; } Src;
 
@@ -91,6 +105,7 @@ int main(int argc, char **argv)
 		/* give the stream its own exact-size block so over-reads of the *input* are seen too */
 		{ uint8_t *s = malloc(slen ? slen : 1); memcpy(s, filedata + filepos, slen); stream = s; filepos += slen; }
 		{ char mb[16]; int n = snprintf(mb, sizeof mb, "%u\n", id); if (pwrite(mfd, mb, n, 0) < 0) return 2; }
+		arm_watchdog();
 		src.p = stream; src.len = slen; src.pos = 0; src.chunk = in_chunk; src.calls = 0;
 		ncb = 0; method[7] = 0;
 		dt = lha_decoder_for_name(method);
